@@ -3,6 +3,8 @@
 mod chooser;
 mod conc;
 mod content;
+mod crash;
+mod crashrun;
 mod model;
 mod props;
 mod qspec;
@@ -32,6 +34,7 @@ fn argu(args: &[String], name: &str, def: u64) -> u64 {
 pub fn run_case(p: &Profile, seed: u64, run: u64, ov: &Override, want_case: bool) -> RunOut {
     match p.kind {
         Kind::Engine => props::run_engine(p, seed, run, ov, want_case),
+        Kind::Crash => crashrun::run_crash(p, seed, run, ov, want_case),
         _ => {
             let mut o = RunOut::default();
             o.run = run;
